@@ -9,7 +9,7 @@ ASSUMPTIONS = [
     'truth = arbitrary array of true filter hashes for blocks 0..16; model check-point interval 4 (real 2000); <=3 (4) filters per batch',
     'calc_filter_hash and Golomb-coded-set matching are uninterpreted (memoised arbitrary function / arbitrary subset)',
     'that the agreed hashes themselves come from a quorum is C07 / get_latest_block_filter_hashes (not re-decided here)',
-    'attribution of the DOWNLOADED block to the filter height (O6.3) is a recorded known finding when it fails',
+    'attribution of the DOWNLOADED block to the filter height: O6.3 (engine M, a necessary condition) fails on HEAD and is recorded as known finding KF-4 (replayed end to end)',
 ]
 CUTS = ['Storage / Peers / FilterProtocol / network -> models with ghost record', 'calc_filter_hash -> uninterpreted', 'GCS matching -> arbitrary subset',
         'rand -> arbitrary choice']
@@ -26,6 +26,19 @@ def ex_lbfh(repo):
     return common.status_code(repo) + [p.item(r'^pub\(crate\) struct LatestBlockFilterHashes', attrs=True), p.item(r'^impl LatestBlockFilterHashes \{')]
 
 
+def mir_attribution(cfg):
+    """O6.3: a block announced next to a matching filter is proved (MMR: membership in the chain, not height) and then indexed for the
+    filter's height.  Something must tie the proved header's NUMBER to the range of the pending record before it is marked proved: the
+    handler has to consult the record (get_earliest_matched_blocks / get_matched_blocks) on every path to mark_matched_blocks_proved."""
+    import mirpaths
+    q = mirpaths.Query(cfg)
+    eff = cfg.find_calls(r'Peers::mark_matched_blocks_proved')
+    q.witness(eff, 'mark_matched_blocks_proved reachable')
+    q.must_call(eff, r'Storage::get_(earliest_|latest_)?matched_blocks', 'a matched block is marked proved (and then downloaded and indexed for the filter height) without the proved '
+                'header number ever being compared with the range of the pending matched-block record: a substituted block hash is accepted')
+    return q
+
+
 def ex_bfhashes(repo):
     s = Source(repo, BFHP)
     e = s.item(r'^    pub fn execute\(self\) -> Status'); e.prefix = "impl<'a> BlockFilterHashesProcess<'a> {\n"; e.suffix = '\n}'
@@ -34,6 +47,9 @@ def ex_bfhashes(repo):
 
 def obligations():
     return [
+        MirOb('O6.3-attribution', 'SendBlocksProofProcess::execute_internally: a matched block is marked proved only after the pending record range has been consulted '
+              '(necessary for tying the proved header number to the height of the filter that matched)', r'send_blocks_proof\.rs:\d+:\d+: \d+:\d+>::execute_internally\(',
+              mir_attribution, src_rel=SBP),
         KModelOb('O6.4-cached-hashes', 'bfhashes', 'hashes_q', 'BlockFilterHashesProcess::execute (real text): the per-interval cache of filter hashes (supplied by ONE peer) is extended '
                  'only by batches chained from the finalized check point / the cached hash of the previous block, never rewritten, and a COMPLETE interval '
                  'ends with the finalized next check point - the only thing that pins a single peer hash chain to the quorum; latest hashes only above '
